@@ -175,6 +175,7 @@ func (m *UnboundedFairMailbox) Enqueue(msg *ReceiveContext) error {
 	// can bump pending out of order with respect to their inner enqueue, so
 	// pending == 1 alone can miss the activation and strand the sub-queue.
 	pending := atomic.AddInt64(&sq.pending, 1)
+	verifhook.At("fair.enq.actload", m, pending, 0)
 	if pending == 1 || !sq.active.Load() {
 		// transition from empty -> non-empty, try to activate sender
 		verifhook.At("fair.enq.cas", m, 0, 0)
